@@ -1235,9 +1235,11 @@ class Timezone(Component):
         for component in self.walk():
             if type(component) == Timezone:
                 continue
-            assert isinstance(component['DTSTART'].dt, datetime), (
-                "VTIMEZONEs sub-components' DTSTART must be of type datetime, not date"
-            )
+            if not isinstance(component['DTSTART'].dt, datetime):
+                # not an assert statement: python -O must not switch this off
+                raise AssertionError(
+                    "VTIMEZONEs sub-components' DTSTART must be of type datetime, not date"
+                )
             try:
                 tzname = str(component['TZNAME'])
             except UnicodeEncodeError:
@@ -1282,7 +1284,11 @@ class Timezone(Component):
                         if not dst[transitions[index][3]]:  # [3] is the name
                             dst_offset = osto - transitions[index][2]  # [2] is osto  # noqa
                             break
-            assert dst_offset is not False
+            if dst_offset is False:
+                # not an assert statement: python -O must not switch this off
+                raise AssertionError(
+                    "VTIMEZONE without a STANDARD sub-component"
+                )
             transition_info.append((osto, dst_offset, name))
         return transition_times, transition_info
 
